@@ -272,6 +272,7 @@ type Presentation struct {
 	Files        map[string]FilePres
 	MemberOrder  []int // permutation of the present members; nil = identity
 	ExtraMembers []ExtraMember
+	Comment      string `json:",omitempty"` // zip archive comment
 }
 
 func needsQuotes(s string) bool {
@@ -423,6 +424,9 @@ func Render(ts Tables, p Presentation) []byte {
 			panic(err)
 		}
 		fw.Write(m.content)
+	}
+	if p.Comment != "" {
+		w.SetComment(p.Comment)
 	}
 	if err := w.Close(); err != nil {
 		panic(err)
